@@ -439,7 +439,7 @@ class Interp:
         env = Env(menv)
         env.vars[kname] = const(key) if key is not None else self.der(("mapkey", a), srcs)
         env.vars[vname] = vin
-        sub = Frame(mfn, mfr_module, ctx, env)
+        sub = Frame(mfn, mfr_module, (ctx + (("mapkey", key),))[-MAX_CTX:], env)
         return self.eval(sub, node)
 
     def _find_method(self, ci: ClassInfo, name: str) -> Optional[FunctionInfo]:
@@ -675,6 +675,8 @@ class Interp:
             elif a[0] == "src":
                 t = self.tg.unfold_rec(self.src_type(a))
                 k = kind or (t[0] if t[0] in CONTAINER_KINDS else ("tuple" if t[0] == "tuplefix" else "copy"))
+                if kind is None and sliced and self.roots.get(a[1]) == ("ext", "types.CodeType"):
+                    k = "tuple"  # co_* sequences are tuples/bytes: a slice of one is immutable
                 n = self.alloc(fr, node, k)
                 self.hadd(n, COPYOF, [a])
                 out.add(n)
